@@ -52,9 +52,14 @@ type sessField struct {
 //
 // Only the names from/to (the bit range, also anchors of C01.layout) and the
 // wire name ShortSize are assumed.
+// undiscriminated: conditionally assigned session fields for which no discriminator of any kind exists
+// (filled by inferSessionTable): field -> decoder
+var undiscriminated = map[string]*ssa.Function{}
+
 func inferSessionTable(p *Program, fns []*ssa.Function) ([]sessField, []string) {
 	var table []sessField
 	var notes []string
+	undiscriminated = map[string]*ssa.Function{}
 	seen := map[string]bool{}
 	for _, f := range fns {
 		if !trieScope(f) || f.Synthetic != "" || len(f.Blocks) == 0 {
@@ -169,6 +174,49 @@ func inferSessionTable(p *Program, fns []*ssa.Function) ([]sessField, []string) 
 				}
 			}
 			if disc == "" {
+				// an integer discriminator: some session field B, assigned on every path with one value term,
+				// is compared with 0 in the path conditions, and F is stored exactly on one side
+				intDisc := false
+				for _, B := range names {
+					if B == F {
+						continue
+					}
+					tb, same := "", true
+					for i := range live {
+						v, has := finals[i]["QR."+B]
+						if !has || (tb != "" && v != tb) {
+							same = false
+							break
+						}
+						tb = v
+					}
+					if !same || tb == "" {
+						continue
+					}
+					for _, pol := range []string{"(0 == " + tb + ")", "(0 != " + tb + ")", "(0 == QR." + B + ")", "(0 != QR." + B + ")"} {
+						ok := true
+						for i, fp := range live {
+							has := false
+							for _, c := range fp.pc {
+								if c == pol {
+									has = true
+								}
+							}
+							if has != fields[F][i] {
+								ok = false
+								break
+							}
+						}
+						if ok {
+							intDisc = true
+						}
+					}
+				}
+				if !intDisc {
+					if _, dup := undiscriminated[F]; !dup {
+						undiscriminated[F] = f
+					}
+				}
 				continue
 			}
 			key := F + "/" + disc
@@ -216,6 +264,53 @@ func checkSessionTypestate(p *Program, r *Report, rule string) {
 			s = append(s, sf.field+" valid iff "+discText(sf))
 		}
 		r.Note("%s: inferred table: %s", rule, strings.Join(s, "; "))
+	}
+	// ---- fields assigned on some paths of a decoder only, with nothing that tells a reader whether they were:
+	// a read outside the functions that store them sees the previous node's value (or zero)
+	{
+		var names []string
+		for n := range undiscriminated {
+			names = append(names, n)
+		}
+		sort.Strings(names)
+		for _, F := range names {
+			dec := undiscriminated[F]
+			isProd := map[*ssa.Function]bool{}
+			type rd struct {
+				fn *ssa.Function
+				ld *ssa.UnOp
+			}
+			var reads []rd
+			for _, f := range fns {
+				if !trieScope(f) || f.Synthetic != "" {
+					continue
+				}
+				instrsOf(f, func(_ *ssa.BasicBlock, in ssa.Instruction) {
+					switch x := in.(type) {
+					case *ssa.Store:
+						if _, fv, fa := fieldOfAddr(x.Addr); fa != nil && fv.Name() == F && isSessionPtr(fa.X) {
+							isProd[f] = true
+						}
+					case *ssa.UnOp:
+						if x.Op == token.MUL {
+							if _, fv, fa := fieldOfAddr(x.X); fa != nil && fv.Name() == F && isSessionPtr(fa.X) {
+								reads = append(reads, rd{f, x})
+							}
+						}
+					}
+				})
+			}
+			var bad []string
+			for _, x := range reads {
+				if !isProd[x.fn] {
+					bad = append(bad, "read in "+shortFn(x.fn)+" at "+p.Pos(x.ld.Pos()))
+				}
+			}
+			sort.Strings(bad)
+			r.Func(shortFn(dec))
+			r.Check(len(bad) == 0, "querySession."+F+" is assigned only on some paths of "+shortFn(dec)+" and has no validity discriminator", p.Pos(dec.Pos()),
+				"never read outside the functions that assign it", "the field keeps the previous node's value (or zero) on the other paths, and no field of the session says which: "+strings.Join(firstN(dedupStrings(bad), 3), "; "))
+		}
 	}
 	// producers and consumers per field
 	for _, sf := range sessionTable {
